@@ -5,6 +5,7 @@ import (
 	"fmt"
 	"os"
 	"path/filepath"
+	"runtime"
 	"sync"
 
 	"github.com/tormoder/fit"
@@ -35,7 +36,12 @@ func registerC04() {
 			{Name: "header-bytes", N: func(t string) uint64 { return 9 }, Run: c04HeaderBytes},
 			{Name: "accepted", N: func(t string) uint64 { return tierN(t, 3000, 200000) }, Run: c04Accepted},
 			{Name: "vendor-bursts", N: func(t string) uint64 { n := uint64(len(c04Dict())); return n * n }, Run: c04VendorBursts},
-			{Name: "large-bursts", N: func(t string) uint64 { return tierN(t, 60, 2000) }, Run: c04LargeBursts},
+			{Name: "large-bursts", N: func(t string) uint64 {
+				if runtime.GOARCH == "386" {
+					return 60 // the second pass on the 32-bit build keeps the quick-tier count in both tiers
+				}
+				return tierN(t, 60, 2000)
+			}, Run: c04LargeBursts},
 		},
 		Exhaustive: func(t string) bool { return t == "thorough" },
 	})
